@@ -13,7 +13,7 @@ from pathlib import Path
 from harness.common import REPO, VERIF, Disagreement, StreamResult, budget
 
 OPS = ["crop", "nodes", "junctions", "topology"]
-INPUTS = ["base", "coord", "attr", "order", "crs", "crs_area_only", "threshold", "area"]
+INPUTS = ["base", "coord", "attr", "order", "crs", "crs_area_only", "crs_traces_only", "threshold", "area"]
 F10_KEY = "F10:byte-flip-that-leaves-the-pickle-loadable"
 F22_KEY = "F22:byte-flip-in-func_code.py"
 
@@ -77,8 +77,8 @@ def run_history(h):
 
 
 def s17_histories(ctx):
-    res = StreamResult("S17-histories", rule="histories of <= 8 calls (4 cached operations x 8 near-identical inputs: base, one coordinate, one attribute, row "
-                       "order, CRS, CRS on the areas only, threshold, area) in two processes sharing a cache directory, with faults between them on the files written under it: "
+    res = StreamResult("S17-histories", rule="histories of <= 8 calls (4 cached operations x 9 near-identical inputs: base, one coordinate, one attribute, row "
+                       "order, CRS, CRS on the areas only, CRS on the traces only, threshold, area) in two processes sharing a cache directory, with faults between them on the files written under it: "
                        "delete, truncate at k/8, flip a byte; every call compared with the result with caching disabled; non-trivial = history with a fault "
                        "on a file that a later call reads")
     rng = random.Random(f"{ctx.seed}:S17")
@@ -102,6 +102,11 @@ def s17_histories(ctx):
         elif mode == 3:
             faults = [(rng.randrange(1000), ("flip", rng.randrange(100000))) for _ in range(rng.randint(1, 3))]
         hists.append({"calls1": c1, "faults": faults, "calls2": c2})
+    # plain cold-then-warm repeats of the operations that touch the caller's frames, for the inputs where a side effect
+    # would show (index labels, CRS on one side only)
+    for op in ("crop", "topology"):
+        for inp in ("base", "crs_area_only", "crs_traces_only"):
+            hists.append({"calls1": [(op, inp)], "faults": [], "calls2": [(op, inp)]})
     with ThreadPoolExecutor(14) as ex:
         outs = list(ex.map(run_history, hists))
     for h, (o1, o2, applied, nfiles) in zip(hists, outs):
